@@ -51,6 +51,7 @@ type serverHandleHTTPChannelReq struct {
 	sc       *ServerConn
 	write    bool
 	tunnelID string
+	reply    func() error
 	res      chan error
 }
 
@@ -554,6 +555,13 @@ func (s *Server) closeSession(ss *ServerSession) {
 func (s *Server) handleHTTPChannel(req serverHandleHTTPChannelReq) error {
 	req.res = make(chan error)
 
+	if req.write {
+		err := req.reply()
+		if err != nil {
+			return err
+		}
+	}
+
 	select {
 	case s.chHandleHTTPChannel <- req:
 	case <-s.ctx.Done():
@@ -561,6 +569,14 @@ func (s *Server) handleHTTPChannel(req serverHandleHTTPChannelReq) error {
 	}
 
 	if !req.write {
+		// reply to the GET request after the channel has been registered,
+		// otherwise the client might open the POST channel before the server
+		// is aware of the GET channel.
+		err := req.reply()
+		if err != nil {
+			return err
+		}
+
 		t := time.NewTimer(5 * time.Second)
 		defer t.Stop()
 
